@@ -13,6 +13,72 @@ use hickory_proto::serialize::binary::{BinDecodable, BinDecoder, BinEncodable, B
 use hickory_proto::ProtoError;
 use vph::*;
 
+mod srv {
+    //! server clause: replies of the real request front door (VerifContext hook) + Catalog +
+    //! in-memory zone with large RRsets, for every protocol / advertised payload
+    use std::net::SocketAddr;
+    use std::sync::Arc;
+
+    use futures_util::StreamExt;
+    use hickory_net::xfer::Protocol;
+    use hickory_net::BufDnsStreamHandle;
+    use hickory_proto::op::{Edns, Message, MessageType, OpCode, Query, SerialMessage};
+    use hickory_proto::rr::rdata::{A, NS, SOA, TXT};
+    use hickory_proto::rr::{Name, RData, Record, RecordType};
+    use hickory_server::dnssec::NxProofKind;
+    use hickory_server::server::VerifContext;
+    use hickory_server::store::in_memory::InMemoryZoneHandler;
+    use hickory_server::zone_handler::{AxfrPolicy, Catalog, ZoneType};
+
+    pub const SIZES: &[usize] = &[1, 5, 20, 27, 28, 29, 60, 120, 400, 1200];
+
+    pub fn catalog() -> Catalog {
+        let origin = Name::parse("big.test.", None).unwrap();
+        let mut z = InMemoryZoneHandler::<hickory_net::runtime::TokioRuntimeProvider>::empty(origin.clone(), ZoneType::Primary, AxfrPolicy::Deny, None::<NxProofKind>);
+        z.upsert_mut(
+            Record::from_rdata(
+                origin.clone(),
+                3600,
+                RData::SOA(SOA::new(Name::parse("ns.big.test.", None).unwrap(), Name::parse("admin.big.test.", None).unwrap(), 1, 7200, 3600, 1209600, 3600)),
+            ),
+            0,
+        );
+        z.upsert_mut(Record::from_rdata(origin.clone(), 3600, RData::NS(NS(Name::parse("ns.big.test.", None).unwrap()))), 0);
+        for &n in SIZES {
+            let name = Name::parse(&format!("a{n}.big.test."), None).unwrap();
+            for i in 0..n {
+                z.upsert_mut(Record::from_rdata(name.clone(), 300, RData::A(A::new(10, (i >> 16) as u8, (i >> 8) as u8, i as u8))), 0);
+            }
+            let tname = Name::parse(&format!("t{n}.big.test."), None).unwrap();
+            for i in 0..n.min(300) {
+                z.upsert_mut(Record::from_rdata(tname.clone(), 300, RData::TXT(TXT::new(vec![format!("text record number {i} padding padding padding")]))), 0);
+            }
+        }
+        let mut c = Catalog::new();
+        c.upsert(origin.into(), vec![Arc::new(z)]);
+        c
+    }
+
+    /// returns the reply bytes (None = no reply)
+    pub fn ask(ctx: &VerifContext<Catalog>, rt: &tokio::runtime::Runtime, name: &str, rtype: RecordType, adv: Option<u16>, tcp: bool, id: u16) -> Option<Vec<u8>> {
+        let mut m = Message::new(id, MessageType::Query, OpCode::Query);
+        m.add_query(Query::new(Name::parse(name, None).unwrap(), rtype));
+        if let Some(p) = adv {
+            let mut e = Edns::new();
+            e.set_max_payload(p);
+            e.set_version(0);
+            m.set_edns(e);
+        }
+        let bytes = m.to_vec().unwrap();
+        let src: SocketAddr = "192.0.2.7:5300".parse().unwrap();
+        let (handle, mut rx) = BufDnsStreamHandle::new(src);
+        rt.block_on(async {
+            ctx.handle_raw_request(SerialMessage::new(bytes, src), if tcp { Protocol::Tcp } else { Protocol::Udp }, handle).await;
+        });
+        rt.block_on(async { rx.next().await }).map(|sm| sm.into_parts().0)
+    }
+}
+
 const LABELS: &[&str] = &["a", "b", "www", "example", "ExAmple", "com", "COM", "net", "x1", "mail", "ns1", "_tcp", "long-label-0123456789"];
 
 #[derive(Clone, Debug)]
@@ -461,14 +527,67 @@ fn case(seed: u64, index: u64) -> CaseOut {
     }
 }
 
+fn srv_case(seed: u64, index: u64, ctx: &hickory_server::server::VerifContext<hickory_server::zone_handler::Catalog>, rt: &tokio::runtime::Runtime) -> CaseOut {
+    let mut r = Rng::for_case(seed, index ^ 0x5eed_0000_0000);
+    let n = *r.pick(srv::SIZES);
+    let txt = r.chance(1, 2);
+    let name = format!("{}{n}.big.test.", if txt { "t" } else { "a" });
+    let adv = *r.pick(&[None, Some(0u16), Some(100), Some(511), Some(512), Some(513), Some(1232), Some(4096), Some(65535)]);
+    let tcp = r.chance(1, 3);
+    let rtype = if txt { RecordType::TXT } else { RecordType::A };
+    let reply = { let ctx = std::panic::AssertUnwindSafe(ctx); let rt = std::panic::AssertUnwindSafe(rt); let name = name.clone(); guard(move || srv::ask(&ctx, &rt, &name, rtype, adv, tcp, index as u16)) };
+    let limit: usize = if tcp { 65535 } else { adv.map(|p| p.max(512) as usize).unwrap_or(512) };
+    let text_in = format!("server {name} {rtype} adv={adv:?} {}", if tcp { "tcp" } else { "udp" });
+    let (len, fail, otext) = match &reply {
+        Ok(Some(b)) => {
+            let mut fail = None;
+            if b.len() > limit {
+                fail = Some(format!("{} reply of {} bytes exceeds max(512, advertised {:?}) = {limit}", if tcp { "TCP" } else { "UDP" }, b.len(), adv));
+            } else {
+                let mut dec = BinDecoder::new(b);
+                match Message::read(&mut dec) {
+                    Err(e) => fail = Some(format!("reply does not decode: {e}")),
+                    Ok(d) => {
+                        if dec.len() != 0 {
+                            fail = Some(format!("{} bytes left over in the reply", dec.len()));
+                        } else if d.answers.len() < n.min(if txt { 300 } else { n }) && !d.metadata.truncation {
+                            fail = Some(format!("{} of {} answers present but TC clear", d.answers.len(), n));
+                        } else if d.answers.len() > n {
+                            fail = Some("more answers than the zone holds".to_string());
+                        }
+                    }
+                }
+            }
+            (b.len(), fail, format!("reply {}B", b.len()))
+        }
+        Ok(None) => (0, Some("no reply to a valid query".to_string()), "no reply".to_string()),
+        Err(p) => (0, Some(format!("server panicked: {p}")), format!("PANIC {p}")),
+    };
+    CaseOut {
+        index,
+        coq: format!("CSrv {} {} {len}", if tcp { "true" } else { "false" }, match adv { Some(p) => format!("(Some {p})"), None => "None".into() }),
+        text: format!("seed={seed} index={index} {text_in} => {otext}"),
+        key: text_in,
+        nontrivial: len > 512 || n >= 27,
+        kind: format!("server-{}", if tcp { "tcp" } else { "udp" }),
+        oracle_fail: fail,
+        known: None,
+    }
+}
+
+/// indices >= SRV_BASE are server cases
+const SRV_BASE: u64 = 1 << 40;
+
 fn main() {
     if std::env::var("VPH_LOUD").is_err() {
         quiet_panics();
     }
     let args = parse_args();
     let _ = Name::from_str("x.").unwrap();
+    let rt = tokio::runtime::Builder::new_current_thread().enable_all().build().unwrap();
+    let ctx = hickory_server::server::VerifContext::new(srv::catalog(), [], []);
     if let Some((seed, index)) = args.replay {
-        let c = case(seed, index);
+        let c = if index >= SRV_BASE { srv_case(seed, index, &ctx, &rt) } else { case(seed, index) };
         println!("{}", c.text);
         println!("COQ {}", c.coq);
         if let Some(f) = c.oracle_fail {
@@ -476,13 +595,16 @@ fn main() {
         }
         return;
     }
-    let cases: Vec<CaseOut> = (0..args.n).map(|i| case(args.seed, i)).collect();
+    let mut cases: Vec<CaseOut> = (0..args.n).map(|i| case(args.seed, i)).collect();
+    for i in 0..args.n / 4 {
+        cases.push(srv_case(args.seed, SRV_BASE + i, &ctx, &rt));
+    }
     emit(
         "C03",
         "C03",
         &args,
         &cases,
-        "random messages (0-2 questions; A/AAAA/TXT/NS/CNAME/PTR/MX/SOA/SRV/NULL records over names sharing suffixes, mixed case, arbitrary-byte labels; EDNS with options; TSIG) x limits {12, small constants, full-1, full, full+1, 65535, uniform in [12, full+4]}; non-trivial = output truncated, or complete with at least one answer; distinct by (message, limit)",
+        "random messages (0-2 questions; A/AAAA/TXT/NS/CNAME/PTR/MX/SOA/SRV/NULL records over names sharing suffixes, mixed case, arbitrary-byte labels; EDNS with options; TSIG) x limits {12, small constants, full-1, full, full+1, 65535, uniform in [12, full+4]}; non-trivial = output truncated, or complete with at least one answer; distinct by (message, limit); server cases: queries for RRsets of 1..1200 A / TXT records through the real request front door (VerifContext hook -> Catalog -> in-memory zone) over UDP/TCP with advertised payload in {none,0,100,511,512,513,1232,4096,65535}",
         serde_json::json!({}),
     );
 }
